@@ -649,42 +649,46 @@ Definition header_of (m : cmap) (g : geom) (kw : kwargs) : option (list hline) :
             LOther ""; LOther "OPERATOR: orix"; LOther ""; LOther "SAMPLEID:"; LOther ""; LOther "SCANID:"; LOther "";
             LColumns (header_cols ++ k_extra kw); LOther ""]).
 
-Definition sources (m : cmap) (kw : kwargs) : list colsrc :=
-  [col_source m (k_iq kw) (nth 0 search_names []); col_source m (k_ci kw) (nth 1 search_names []);
-   col_source m (k_ds kw) (nth 2 search_names []); col_source m (k_fit kw) (nth 3 search_names [])]
-  (* all_expected_prop_names + desired_prop_names[4:] : an empty extra name
-     searches among the characters of "" and finds nothing *)
-  ++ map (fun n => col_source m (Some n) []) (k_extra kw).
+Definition std_sources (m : cmap) (kw : kwargs) : colsrc * colsrc * colsrc * colsrc :=
+  (col_source m (k_iq kw) (nth 0 search_names []), col_source m (k_ci kw) (nth 1 search_names []),
+   col_source m (k_ds kw) (nth 2 search_names []), col_source m (k_fit kw) (nth 3 search_names [])).
+(* all_expected_prop_names + desired_prop_names[4:] : an empty extra name
+   searches among the characters of "" and finds nothing *)
+Definition extra_sources (m : cmap) (kw : kwargs) : list colsrc :=
+  map (fun n => col_source m (Some n) []) (k_extra kw).
 
-Definition sentinel (j : nat) : Z :=
-  match j with
-  | 1%nat => ci_not_indexed5
-  | 3%nat => fit_not_indexed5
-  | _ => 0
-  end.
+(* value of a property column at map point p: fill value 0 outside the data *)
+Definition col_value (m : cmap) (kw : kwargs) (s : colsrc) (p : nat) : option Z :=
+  if nth p (m_in m) false then src_value (k_index kw) s p else Some 0.
 
-Definition row_of (m : cmap) (g : geom) (kw : kwargs) (srcs : list colsrc) (k p : nat) : option (list cell) :=
+Definition euler_value (m : cmap) (kw : kwargs) (p : nat) : option (Z * Z * Z) :=
+  if nth p (m_in m) false
+  then r <- rot_at m (k_index kw) p ;;
+       let '(a, b, c) := to_eu r in Some (rnd5 a, rnd5 b, rnd5 c)
+  else Some (0, 0, 0).      (* fill_value *)
+
+(* one line of the file: k = position in the written grid, p = original point *)
+Definition row_of (m : cmap) (g : geom) (kw : kwargs) (k p : nat) : option (list cell) :=
   let live := indexed_at m p in
-  eu <- (if nth p (m_in m) false
-         then r <- rot_at m (k_index kw) p ;;
-              let '(a, b, c) := to_eu r in Some (rnd5 a, rnd5 b, rnd5 c)
-         else Some (0, 0, 0)) ;;      (* fill_value *)
-  vals <- sequence (map (fun js => if nth p (m_in m) false then src_value (k_index kw) (snd js) p else Some 0)
-                        (combine (seq 0 (length srcs)) srcs)) ;;
+  let '(s0, s1, s2, s3) := std_sources m kw in
+  eu <- euler_value m kw p ;;
+  v0 <- col_value m kw s0 p ;; v1 <- col_value m kw s1 p ;;
+  v2 <- col_value m kw s2 p ;; v3 <- col_value m kw s3 p ;;
+  ex <- sequence (map (fun s => col_value m kw s p) (extra_sources m kw)) ;;
   let '(a, b, c) := eu in
-  let eul := if live then [a; b; c] else [four_pi5; four_pi5; four_pi5] in
-  let vals' := if live then vals else map sentinel (seq 0 (length vals)) in
   let x := coord (g_dx g) (Nat.modulo k (g_ncols g)) in
   let y := coord (g_dy g) (Nat.div k (g_ncols g)) in
-  Some (map CF eul ++ [CF x; CF y] ++ map CF (firstn 2 vals') ++ [CI (new_pid m p)] ++ map CF (skipn 2 vals')).
+  Some (if live
+        then [CF a; CF b; CF c; CF x; CF y; CF v0; CF v1; CI (new_pid m p); CF v2; CF v3] ++ map CF ex
+        else [CF four_pi5; CF four_pi5; CF four_pi5; CF x; CF y; CF 0; CF ci_not_indexed5;
+              CI (new_pid m p); CF 0; CF fit_not_indexed5] ++ map (fun _ => CF 0) ex).
 
 Definition write (m : cmap) (kw : kwargs) : option file :=
   g <- geometry m ;;
   if negb (map_data_ok m) then None else
   (* with index given the Euler array (n,3) needs more than 3 map points: implied by map_data_ok *)
   hdr <- header_of m g kw ;;
-  let srcs := sources m kw in
-  rows <- sequence (map (fun kp => row_of m g kw srcs (fst kp) (snd kp))
+  rows <- sequence (map (fun kp => row_of m g kw (fst kp) (snd kp))
                         (combine (seq 0 (length (g_pts g))) (g_pts g))) ;;
   Some {| f_header := hdr; f_rows := rows |}.
 
